@@ -73,7 +73,7 @@ def run(rep, tier):
         rule_inputs(rep, mi, b.cfg.name)
         rule_reseed_limit(rep, mi, b.cfg.name)
         rule_status(rep, mi, b.cfg.name)
-        rule_mixer(rep, m, b.cfg.name)
+        rule_mixer(rep, mi, b.cfg.name)
     nv = len(rep.violations)
     rule_rekey_semantic(rep, tier)
     sem_bad = len(rep.violations) > nv
